@@ -864,6 +864,8 @@ pub mod verif {
         Reply(Vec<u8>),
         /// The SCMP reply could not be encoded; nothing is sent.
         ReplyFailed(String),
+        /// Rejected without an answer (the datagram carries an SCMP error message).
+        NoReply,
     }
 
     struct NoAuthz;
@@ -886,6 +888,7 @@ pub mod verif {
     pub fn ingress_outcome(datagram: &[u8], peer: IpAddr, local_addr: ScionHostAddr) -> IngressOutcome {
         match inbound_datagram_check(datagram, peer) {
             Ok(_view) => IngressOutcome::Dispatch,
+            Err(e) if e.offending_packet_is_scmp_error() => IngressOutcome::NoReply,
             Err(e) => {
                 let pool = PacketPool::new(1);
                 let mut target_buf = pool.get();
